@@ -106,6 +106,7 @@ type World struct {
 	nproc           int
 	execDepth       atomic.Int32
 	fired           int
+	dropped         int
 }
 
 // New creates a world standing at genesis; no controller runs yet.
@@ -416,12 +417,32 @@ func (w *World) Start(waitedForGenesis bool) error {
 
 // ---- jobs ----
 
+// purge applies the scheduler contract "if the parent context is cancelled the
+// job will not run": jobs whose context is done are dropped (and logged).
+func (w *World) purge() {
+	if w.Proc == nil {
+		return
+	}
+	for _, j := range w.Proc.Sched.Jobs() {
+		if j.Ctx != nil && j.Ctx.Err() != nil && w.Proc.ctx.Err() == nil {
+			w.Proc.Sched.CancelJobIfExists(context.Background(), j.Name)
+			k, n, _ := ParseJobName(j.Name)
+			w.logSched(SchedOp{Op: "dropped-context-done", Name: j.Name, Time: j.Time, Kind: k, Slot: n})
+			w.dropped++
+		}
+	}
+}
+
+// Dropped returns the number of jobs dropped because their parent context was done.
+func (w *World) Dropped() int { return w.dropped }
+
 // Jobs returns the job table of the running process ordered by (time, sequence).
 // Periodic jobs carry the time of their next run.
 func (w *World) Jobs() []JobInfo {
 	if w.Proc == nil {
 		return nil
 	}
+	w.purge()
 	var res []JobInfo
 	for _, j := range w.Proc.Sched.Jobs() {
 		k, n, c := ParseJobName(j.Name)
@@ -448,6 +469,7 @@ func (w *World) nextDue(limit time.Time) (string, time.Time, bool, bool) {
 		order    int
 	}
 	var cs []cand
+	w.purge()
 	for i, j := range w.Proc.Sched.Jobs() {
 		at := j.Time
 		if j.Periodic {
